@@ -47,16 +47,16 @@ package framework_helper
 //@ loop 1 invariant [partitions-fresh] (backing(priorityOrderedComponents) == 0 || backing(priorityOrderedComponents) > old(top())) && (backing(orderedComponents) == 0 || backing(orderedComponents) > old(top())) && (backing(noneOrderedComponents) == 0 || backing(noneOrderedComponents) > old(top()))
 //@ loop 1 invariant [partitions-distinct] (backing(priorityOrderedComponents) == 0 || backing(priorityOrderedComponents) != backing(orderedComponents)) && (backing(priorityOrderedComponents) == 0 || backing(priorityOrderedComponents) != backing(noneOrderedComponents)) && (backing(orderedComponents) == 0 || backing(orderedComponents) != backing(noneOrderedComponents))
 // Intermediate assertions: each is proved where it stands and then available to what follows (keeps every query small).
-//@ assert after call sort2.Slice #1: [P-sorted-wf] forall(i, int, implies(0 <= i && i < len(priorityOrderedComponents), 0 <= tag(priorityOrderedComponents, i) && tag(priorityOrderedComponents, i) < len(components) && priorityOrderedComponents[i] == components[tag(priorityOrderedComponents, i)] && Cls(toany(priorityOrderedComponents[i])) == 0), tag(priorityOrderedComponents, i), priorityOrderedComponents[i])
-//@ assert after call sort2.Slice #1: [P-sorted-distinct] forall(i, int, forall(j, int, implies(0 <= i && i < j && j < len(priorityOrderedComponents), tag(priorityOrderedComponents, i) != tag(priorityOrderedComponents, j)), tag(priorityOrderedComponents, j), priorityOrderedComponents[j]), tag(priorityOrderedComponents, i), priorityOrderedComponents[i])
-//@ assert after call sort2.Slice #1: [P-sorted] forall(i, int, forall(j, int, implies(0 <= i && i < j && j < len(priorityOrderedComponents), Ord(toany(priorityOrderedComponents[i])) <= Ord(toany(priorityOrderedComponents[j]))), tag(priorityOrderedComponents, j), priorityOrderedComponents[j]), tag(priorityOrderedComponents, i), priorityOrderedComponents[i])
-//@ assert after call sort2.Slice #1: [O-kept] forall(i, int, implies(0 <= i && i < len(orderedComponents), 0 <= tag(orderedComponents, i) && tag(orderedComponents, i) < len(components) && orderedComponents[i] == components[tag(orderedComponents, i)] && Cls(toany(orderedComponents[i])) == 1), tag(orderedComponents, i), orderedComponents[i]) && forall(i, int, forall(j, int, implies(0 <= i && i < j && j < len(orderedComponents), tag(orderedComponents, i) < tag(orderedComponents, j)), tag(orderedComponents, j), orderedComponents[j]), tag(orderedComponents, i), orderedComponents[i])
-//@ assert after call sort2.Slice #1: [N-kept] forall(i, int, implies(0 <= i && i < len(noneOrderedComponents), 0 <= tag(noneOrderedComponents, i) && tag(noneOrderedComponents, i) < len(components) && noneOrderedComponents[i] == components[tag(noneOrderedComponents, i)] && Cls(toany(noneOrderedComponents[i])) == 2), tag(noneOrderedComponents, i), noneOrderedComponents[i]) && forall(i, int, forall(j, int, implies(0 <= i && i < j && j < len(noneOrderedComponents), tag(noneOrderedComponents, i) < tag(noneOrderedComponents, j)), tag(noneOrderedComponents, j), noneOrderedComponents[j]), tag(noneOrderedComponents, i), noneOrderedComponents[i])
-//@ assert after call sort2.Slice #2: [O-sorted-wf] forall(i, int, implies(0 <= i && i < len(orderedComponents), 0 <= tag(orderedComponents, i) && tag(orderedComponents, i) < len(components) && orderedComponents[i] == components[tag(orderedComponents, i)] && Cls(toany(orderedComponents[i])) == 1), tag(orderedComponents, i), orderedComponents[i])
-//@ assert after call sort2.Slice #2: [O-sorted-distinct] forall(i, int, forall(j, int, implies(0 <= i && i < j && j < len(orderedComponents), tag(orderedComponents, i) != tag(orderedComponents, j)), tag(orderedComponents, j), orderedComponents[j]), tag(orderedComponents, i), orderedComponents[i])
-//@ assert after call sort2.Slice #2: [O-sorted] forall(i, int, forall(j, int, implies(0 <= i && i < j && j < len(orderedComponents), Ord(toany(orderedComponents[i])) <= Ord(toany(orderedComponents[j]))), tag(orderedComponents, j), orderedComponents[j]), tag(orderedComponents, i), orderedComponents[i])
-//@ assert after call sort2.Slice #2: [P-kept] forall(i, int, implies(0 <= i && i < len(priorityOrderedComponents), 0 <= tag(priorityOrderedComponents, i) && tag(priorityOrderedComponents, i) < len(components) && priorityOrderedComponents[i] == components[tag(priorityOrderedComponents, i)] && Cls(toany(priorityOrderedComponents[i])) == 0), tag(priorityOrderedComponents, i), priorityOrderedComponents[i]) && forall(i, int, forall(j, int, implies(0 <= i && i < j && j < len(priorityOrderedComponents), tag(priorityOrderedComponents, i) != tag(priorityOrderedComponents, j)), tag(priorityOrderedComponents, j), priorityOrderedComponents[j]), tag(priorityOrderedComponents, i), priorityOrderedComponents[i]) && forall(i, int, forall(j, int, implies(0 <= i && i < j && j < len(priorityOrderedComponents), Ord(toany(priorityOrderedComponents[i])) <= Ord(toany(priorityOrderedComponents[j]))), tag(priorityOrderedComponents, j), priorityOrderedComponents[j]), tag(priorityOrderedComponents, i), priorityOrderedComponents[i])
-//@ assert after call sort2.Slice #2: [N-kept2] forall(i, int, implies(0 <= i && i < len(noneOrderedComponents), 0 <= tag(noneOrderedComponents, i) && tag(noneOrderedComponents, i) < len(components) && noneOrderedComponents[i] == components[tag(noneOrderedComponents, i)] && Cls(toany(noneOrderedComponents[i])) == 2), tag(noneOrderedComponents, i), noneOrderedComponents[i]) && forall(i, int, forall(j, int, implies(0 <= i && i < j && j < len(noneOrderedComponents), tag(noneOrderedComponents, i) < tag(noneOrderedComponents, j)), tag(noneOrderedComponents, j), noneOrderedComponents[j]), tag(noneOrderedComponents, i), noneOrderedComponents[i])
+//@ assert after call sort2.Slice(priorityOrderedComponents): [P-sorted-wf] forall(i, int, implies(0 <= i && i < len(priorityOrderedComponents), 0 <= tag(priorityOrderedComponents, i) && tag(priorityOrderedComponents, i) < len(components) && priorityOrderedComponents[i] == components[tag(priorityOrderedComponents, i)] && Cls(toany(priorityOrderedComponents[i])) == 0), tag(priorityOrderedComponents, i), priorityOrderedComponents[i])
+//@ assert after call sort2.Slice(priorityOrderedComponents): [P-sorted-distinct] forall(i, int, forall(j, int, implies(0 <= i && i < j && j < len(priorityOrderedComponents), tag(priorityOrderedComponents, i) != tag(priorityOrderedComponents, j)), tag(priorityOrderedComponents, j), priorityOrderedComponents[j]), tag(priorityOrderedComponents, i), priorityOrderedComponents[i])
+//@ assert after call sort2.Slice(priorityOrderedComponents): [P-sorted] forall(i, int, forall(j, int, implies(0 <= i && i < j && j < len(priorityOrderedComponents), Ord(toany(priorityOrderedComponents[i])) <= Ord(toany(priorityOrderedComponents[j]))), tag(priorityOrderedComponents, j), priorityOrderedComponents[j]), tag(priorityOrderedComponents, i), priorityOrderedComponents[i])
+//@ assert after call sort2.Slice(priorityOrderedComponents): [O-kept] forall(i, int, implies(0 <= i && i < len(orderedComponents), 0 <= tag(orderedComponents, i) && tag(orderedComponents, i) < len(components) && orderedComponents[i] == components[tag(orderedComponents, i)] && Cls(toany(orderedComponents[i])) == 1), tag(orderedComponents, i), orderedComponents[i]) && forall(i, int, forall(j, int, implies(0 <= i && i < j && j < len(orderedComponents), tag(orderedComponents, i) < tag(orderedComponents, j)), tag(orderedComponents, j), orderedComponents[j]), tag(orderedComponents, i), orderedComponents[i])
+//@ assert after call sort2.Slice(priorityOrderedComponents): [N-kept] forall(i, int, implies(0 <= i && i < len(noneOrderedComponents), 0 <= tag(noneOrderedComponents, i) && tag(noneOrderedComponents, i) < len(components) && noneOrderedComponents[i] == components[tag(noneOrderedComponents, i)] && Cls(toany(noneOrderedComponents[i])) == 2), tag(noneOrderedComponents, i), noneOrderedComponents[i]) && forall(i, int, forall(j, int, implies(0 <= i && i < j && j < len(noneOrderedComponents), tag(noneOrderedComponents, i) < tag(noneOrderedComponents, j)), tag(noneOrderedComponents, j), noneOrderedComponents[j]), tag(noneOrderedComponents, i), noneOrderedComponents[i])
+//@ assert after call sort2.Slice(orderedComponents): [O-sorted-wf] forall(i, int, implies(0 <= i && i < len(orderedComponents), 0 <= tag(orderedComponents, i) && tag(orderedComponents, i) < len(components) && orderedComponents[i] == components[tag(orderedComponents, i)] && Cls(toany(orderedComponents[i])) == 1), tag(orderedComponents, i), orderedComponents[i])
+//@ assert after call sort2.Slice(orderedComponents): [O-sorted-distinct] forall(i, int, forall(j, int, implies(0 <= i && i < j && j < len(orderedComponents), tag(orderedComponents, i) != tag(orderedComponents, j)), tag(orderedComponents, j), orderedComponents[j]), tag(orderedComponents, i), orderedComponents[i])
+//@ assert after call sort2.Slice(orderedComponents): [O-sorted] forall(i, int, forall(j, int, implies(0 <= i && i < j && j < len(orderedComponents), Ord(toany(orderedComponents[i])) <= Ord(toany(orderedComponents[j]))), tag(orderedComponents, j), orderedComponents[j]), tag(orderedComponents, i), orderedComponents[i])
+//@ assert after call sort2.Slice(orderedComponents): [P-kept] forall(i, int, implies(0 <= i && i < len(priorityOrderedComponents), 0 <= tag(priorityOrderedComponents, i) && tag(priorityOrderedComponents, i) < len(components) && priorityOrderedComponents[i] == components[tag(priorityOrderedComponents, i)] && Cls(toany(priorityOrderedComponents[i])) == 0), tag(priorityOrderedComponents, i), priorityOrderedComponents[i]) && forall(i, int, forall(j, int, implies(0 <= i && i < j && j < len(priorityOrderedComponents), tag(priorityOrderedComponents, i) != tag(priorityOrderedComponents, j)), tag(priorityOrderedComponents, j), priorityOrderedComponents[j]), tag(priorityOrderedComponents, i), priorityOrderedComponents[i]) && forall(i, int, forall(j, int, implies(0 <= i && i < j && j < len(priorityOrderedComponents), Ord(toany(priorityOrderedComponents[i])) <= Ord(toany(priorityOrderedComponents[j]))), tag(priorityOrderedComponents, j), priorityOrderedComponents[j]), tag(priorityOrderedComponents, i), priorityOrderedComponents[i])
+//@ assert after call sort2.Slice(orderedComponents): [N-kept2] forall(i, int, implies(0 <= i && i < len(noneOrderedComponents), 0 <= tag(noneOrderedComponents, i) && tag(noneOrderedComponents, i) < len(components) && noneOrderedComponents[i] == components[tag(noneOrderedComponents, i)] && Cls(toany(noneOrderedComponents[i])) == 2), tag(noneOrderedComponents, i), noneOrderedComponents[i]) && forall(i, int, forall(j, int, implies(0 <= i && i < j && j < len(noneOrderedComponents), tag(noneOrderedComponents, i) < tag(noneOrderedComponents, j)), tag(noneOrderedComponents, j), noneOrderedComponents[j]), tag(noneOrderedComponents, i), noneOrderedComponents[i])
 //@ assert after call append #4: [cat-P] len(ordered) == len(priorityOrderedComponents) && forall(r, int, implies(0 <= r && r < 0 + len(priorityOrderedComponents), ordered[r] == priorityOrderedComponents[r - (0)] && tag(ordered, r) == tag(priorityOrderedComponents, r - (0))), tag(ordered, r), ordered[r])
 //@ assert after call append #5: [cat-PO] len(ordered) == len(priorityOrderedComponents) + len(orderedComponents) && forall(r, int, implies(0 <= r && r < 0 + len(priorityOrderedComponents), ordered[r] == priorityOrderedComponents[r - (0)] && tag(ordered, r) == tag(priorityOrderedComponents, r - (0))), tag(ordered, r), ordered[r]) && forall(r, int, implies(len(priorityOrderedComponents) <= r && r < len(priorityOrderedComponents) + len(orderedComponents), ordered[r] == orderedComponents[r - (len(priorityOrderedComponents))] && tag(ordered, r) == tag(orderedComponents, r - (len(priorityOrderedComponents)))), tag(ordered, r), ordered[r])
 //@ assert after call append #6: [cat-PON] len(ordered) == len(priorityOrderedComponents) + len(orderedComponents) + len(noneOrderedComponents) && forall(r, int, implies(0 <= r && r < 0 + len(priorityOrderedComponents), ordered[r] == priorityOrderedComponents[r - (0)] && tag(ordered, r) == tag(priorityOrderedComponents, r - (0))), tag(ordered, r), ordered[r]) && forall(r, int, implies(len(priorityOrderedComponents) <= r && r < len(priorityOrderedComponents) + len(orderedComponents), ordered[r] == orderedComponents[r - (len(priorityOrderedComponents))] && tag(ordered, r) == tag(orderedComponents, r - (len(priorityOrderedComponents)))), tag(ordered, r), ordered[r]) && forall(r, int, implies(len(priorityOrderedComponents) + len(orderedComponents) <= r && r < len(priorityOrderedComponents) + len(orderedComponents) + len(noneOrderedComponents), ordered[r] == noneOrderedComponents[r - (len(priorityOrderedComponents) + len(orderedComponents))] && tag(ordered, r) == tag(noneOrderedComponents, r - (len(priorityOrderedComponents) + len(orderedComponents)))), tag(ordered, r), ordered[r])
